@@ -6,14 +6,15 @@ from .. import refunify as R
 from . import bip_common as B
 from .unify_common import struct_eq
 
-ANCHORS = ['bip_equal', 'bip_less_than', 'bip_greater_than', 'get_two_constants', 'get_constant']
-WITNESSES = {'all': ['succeeds', 'fails', 'int-int', 'float-float', 'float-int', 'atom-atom', 'non-constant', 'through-chain']}
+ANCHORS = ['parse_subgoal', 'bip_equal', 'bip_less_than', 'bip_greater_than', 'get_two_constants', 'get_constant']
+WITNESSES = {'all': ['succeeds', 'fails', 'int-int', 'float-float', 'float-int', 'atom-atom', 'non-constant', 'through-chain', 'from-source-text']}
 OPTS = {'quick': {'selfcheck_mod': 40, 'budget_s': 240}, 'thorough': {'selfcheck_mod': 300, 'budget_s': 1800}}
 BOUNDS = {
     'quick': '5 predicates x 1 300 concrete boundary pairs (integers 0, +-1, 2^53, 2^53+1, i64::MAX, i64::MIN against floats 0.0, -0.0, 2^53, 2^53+2, 2^63, 1e19, infinities, NaN, both orders, and integer pairs); '
              '5 predicates x ordered operand pairs over: symbolic i64 (all values), symbolic f64 (all values incl. NaN, infinities, -0.0), atoms of 0-2 symbolic '
              'characters (code points 0x20..0x7ff), each given literally or through a chain of 1-2 bound variables; unbound variable, complex term, list, `$_`; '
-             'each goal is asked twice (at most one answer) and the substitution set is compared before/after',
+             'each goal is asked twice (at most one answer) and the substitution set is compared before/after; '
+             'operands written literally in source text (11 literals: signed and unsigned integers, floats, atoms): a third of the pairs in the forms `pred(A, B)`, `pred(A,B)` and `A op B` through parse_subgoal',
     'thorough': 'same, atoms up to 3 characters, chains up to 3 variables, and the infix forms parsed by parse_subgoal',
 }
 OUTSIDE = 'atoms longer than 3 characters or with code points above 0x7ff'
@@ -36,6 +37,10 @@ INTS = [0, 1, -1, 3, 2 ** 53, 2 ** 53 + 1, -(2 ** 53) - 1, 2 ** 63 - 1, -(2 ** 6
 FLOATS = [0.0, -0.0, 0.5, 3.0, 9007199254740992.0, 9007199254740994.0, 9.223372036854775807e18, 1e19, -1e19, float('inf'), float('-inf'), float('nan')]
 
 
+LITERALS = [('5', ('int', 5)), ('-5', ('int', -5)), ('+7', ('int', 7)), ('0', ('int', 0)), ('3.5', ('float', 3.5)), ('-0.25', ('float', -0.25)), ('5.0', ('float', 5.0)),
+            ('abc', ('atom', 'abc')), ('New York', ('atom', 'New York')), ('ab', ('atom', 'ab')), ('-12', ('int', -12))]
+
+
 def cases(tier, seed):
     out = []
     # boundary values, concretely (no solver needed): integers around 2^53 and at the ends of i64 against the floats next to them
@@ -47,6 +52,13 @@ def cases(tier, seed):
         for i in INTS:
             for j in INTS[4:]:
                 out.append({'id': '%s(%d, %d)' % (p, i, j), 'pred': p, 'fam': 'values', 'i': i, 'j': j, 'order': 0})
+    # the operands given literally in source text: named form with and without a space after the comma, and the infix form
+    for p in PREDS:
+        for li, (lt, _) in enumerate(LITERALS):
+            for ri, (rt, _) in enumerate(LITERALS):
+                if (li + 2 * ri + len(p)) % 3 and tier == 'quick': continue
+                for style in ('named', 'tight', 'infix'):
+                    out.append({'id': 'text %s %s(%s, %s)' % (style, p, lt, rt), 'pred': p, 'fam': 'text', 'l': li, 'r': ri, 'style': style})
     forms = operand_forms(tier)
     for p in PREDS:
         for l in forms:
@@ -111,8 +123,28 @@ def run_values(drv, case):
     return {'tags': ['succeeds' if want else 'fails', 'boundary-values'], 'note': case['id']}
 
 
+def run_text(drv, case):
+    m = drv.m
+    (lt, lv), (rt, rv) = LITERALS[case['l']], LITERALS[case['r']]
+    p = case['pred']
+    text = {'named': '%s(%s, %s)' % (p, lt, rt), 'tight': '%s(%s,%s)' % (p, lt, rt), 'infix': '%s %s %s' % (lt, INFIX[p], rt)}[case['style']]
+    g, res = drv.parse('subgoal', text)
+    if res[0] != 'ok': raise Violation('text-rejected:' + case['style'], 'parse_subgoal rejects %r' % text)
+    env = B.Env(drv)
+    kb = drv.kb([])
+    node = drv.node(g, kb, env.ss)
+    r1, r2 = drv.next(node), drv.next(node)
+    want = expected(m, p, lv, rv)
+    if (r1.h is not None) != want:
+        raise Violation('wrong-outcome-from-text:%s:%s' % (p, case['style']), 'the goal %r %s but %s and %s %s compare that way' % (
+            text, 'succeeds' if r1.h is not None else 'fails', R.show(lv), R.show(rv), 'do' if want else 'do not'))
+    if r2.h is not None: raise Violation('more-than-once:%s' % p, '%r: a second answer was produced' % text)
+    return {'tags': ['succeeds' if want else 'fails', 'from-source-text'], 'note': text}
+
+
 def run(drv, case):
     if case.get('fam') == 'values': return run_values(drv, case)
+    if case.get('fam') == 'text': return run_text(drv, case)
     m = drv.m
     env = B.Env(drv)
     kb = drv.kb([])
